@@ -10,6 +10,10 @@ CLAIMED = {
             "Theorem htable_refines_map: every set/get/delete sequence on every bucket count reports what a map reports; the model is tied to the code by running both on generated op sequences with canonical bucket dumps.",
             "Trusted: Lean kernel, propext/Quot.sound/Classical.choice, the differential harness; chain nodes modelled as lists. Parsers (atoi/env/affinity) are being added.",
             "DESIGN.md §5 C20"),
+    "C04": ("Lean 4 inductive-invariant proof over an interleaving LTS of the mutex's atomic steps (any number of callers, all schedules) + T1 skeleton tie + T3 validation of controlled-scheduler traces of the real code against the model",
+            "Theorems mutex_excl, mutex_trylock_iff_free, mutex_no_lost_wakeup_safety, mutex_broadcast_wakes_all, mutex_wake_only_suspended, mutex_recursive_release_at_zero hold for every reachable state of Model.Mutex; every explored execution of the hooked runtime under vsched (random/PCT schedules, ULT+tasklet+external callers, static/recursive mutexes) must be accepted by the model event by event, and monitors + deadlock detection look for concrete failures.",
+            "Trusted: Lean kernel; sequential consistency of atomics; vsched/hook/projection machinery (vlib/t3.py); liveness only in safety form + explored schedules; futex wake counting not modelled.",
+            "DESIGN.md §5 C04"),
 }
 NOT_YET = "machinery for this property is not built yet (work in progress; see DESIGN.md §10 build order)"
 
